@@ -185,7 +185,7 @@ VARIANTS = [
     V("twin: np.unique codes for integer labels only", ("C01", "C05", "C07"), "", "core.py", '        else:\n            idx, groups = pd.factorize(flat, sort=sort)', '        elif sort and flat.dtype.kind in "iu":\n            groups, idx = np.unique(flat, return_inverse=True)\n        else:\n            idx, groups = pd.factorize(flat, sort=sort)', expect="silent"),
     V("twin: redundant isnull dropped from the lookup mask", ("C05", "C07"), "", "core.py", '            mask = ~np.isin(flat, expect) | isnull(flat) | (idx == len(expect))', '            mask = ~np.isin(flat, expect) | (idx == len(expect))', expect="silent"),
     # ---------------- R-CODEDEP (C07)
-    V("single-group grouper coded as zeros (lazy labels)", ("C07",), "R-CODEDEP", "core.py", '            for by_, expect_ in zip(by_chunked, expected_groups)\n        ]', '            if len(expect_) != 1\n            else dask.array.zeros(by_.shape, chunks=by_.chunks, dtype=np.int64)\n            for by_, expect_ in zip(by_chunked, expected_groups)\n        ]', must_mention="metadata"),
+    V("single-group grouper coded as zeros (lazy labels)", ("C07",), "R-CODEDEP", "core.py", '            for by_, expect_ in zip(by_chunked, found_groups)\n        ]', '            if len(expect_) != 1\n            else dask.array.zeros(by_.shape, chunks=by_.chunks, dtype=np.int64)\n            for by_, expect_ in zip(by_chunked, found_groups)\n        ]', must_mention="metadata"),
     # ---------------- R-LABELVALUE (C05, C07)
     V("labels cast to the requested dtype before lookup", ("C05", "C07"), "R-LABELVALUE", "core.py", '            idx = np.searchsorted(expect, flat, sorter=sorter)', '            idx = np.searchsorted(expect, flat.astype(expect.dtype), sorter=sorter)', must_mention="searchsorted"),
     V("NaN labels substituted before factorizing", ("C05", "C07"), "R-LABELVALUE", "core.py", '            idx, groups = pd.factorize(flat, sort=sort)', '            flat = np.nan_to_num(flat)\n            idx, groups = pd.factorize(flat, sort=sort)', must_mention="factorize"),
@@ -236,7 +236,7 @@ VARIANTS = [
     V("data-dependent branch on labels", ("C12",), "R-LAZY", "core.py", '    if axis is None:\n        axis_ = tuple(array.ndim + np.arange(-by_.ndim, 0))', '    if (by_ == -1).any():\n        pass\n    if axis is None:\n        axis_ = tuple(array.ndim + np.arange(-by_.ndim, 0))', must_mention="groupby_reduce"),
     V("planner guard loses 'not any_by_dask'", ("C12",), "R-LAZY", "core.py", '        if (not any_by_dask and method is None) or method == "cohorts":', '        if method is None or method == "cohorts":', must_mention="find_group_cohorts"),
     V("blockwise rechunk with dask labels", ("C12",), "R-LAZY", "core.py", 'and by_.ndim == 1 and not any_by_dask:', 'and by_.ndim == 1:', must_mention="rechunk_for_blockwise"),
-    V("all-fill result built with np.full", ("C12",), "R-LAZY", "core.py", '            reindexed = np.full_like(array, fill_value, shape=shape)', '            reindexed = np.full(shape, fill_value, dtype=array.dtype)', must_mention="reindex_"),
+    V("all-fill result built with np.full", ("C12",), "R-LAZY", "core.py", '                reindexed = np.full_like(array, fill_value, shape=shape, dtype=new_dtype)', '                reindexed = np.full(shape, fill_value, dtype=new_dtype)', must_mention="reindex_"),
     V("expected groups computed from dask labels", ("C12",), "R-LAZY", "core.py", '    if is_duck_dask_array(by):\n        raise ValueError("Please provide expected_groups if not grouping by a numpy array.")\n', '', must_mention="_get_expected_groups"),
     V("twin: guard moved into a local flag", ("C12",), "", "core.py", '        if (not any_by_dask and method is None) or method == "cohorts":', '        plan_from_labels = (not any_by_dask and method is None) or method == "cohorts"\n        if plan_from_labels:', expect="silent"),
     # ---------------- C19 rules
@@ -244,7 +244,7 @@ VARIANTS = [
     V("agg bound only for str in groupby_scan", ("C19",), "R-DEFASSIGN", "core.py", '    else:\n        agg = func\n    if not isinstance(agg, Scan):', '    if not isinstance(agg, Scan):', must_mention="groupby_scan"),
     V("raw registry lookup in groupby_scan", ("C19",), "R-REGKEY", "core.py", '        try:\n            agg = AGGREGATIONS[func]\n        except KeyError:\n            raise NotImplementedError(f"Scan {func!r} not implemented yet")', '        agg = AGGREGATIONS[func]', must_mention="groupby_scan"),
     V("reindex= passed to _grouped_combine", ("C19",), "R-KWSIG", "core.py", '                        else partial(combine, agg=agg, keepdims=True)', '                        else partial(combine, agg=agg, reindex=new_reindex, keepdims=True)', must_mention="_grouped_combine"),
-    V("scan refusal replaced by nothing", ("C19",), "R-ASSERT", "core.py", '    if by_.ndim != 1 or axis_ != (array.ndim - 1,):\n        raise NotImplementedError("Scans are only supported along the last axis, with 1D `by`.")\n', '', must_mention="AlignedArrays"),
+    V("scan refusal replaced by nothing", ("C19",), "R-ASSERT", "core.py", '    if by_.ndim != 1 or axis_ != (array.ndim - 1,):\n        raise NotImplementedError("Scans are only supported along the last axis, with 1D `by`.")\n', '', must_mention="chunk_scan"),
     V("user-reachable assert re-introduced", ("C19",), "R-ASSERT", "core.py", '    if nax > by_.ndim:\n        raise ValueError(\n            f"Cannot reduce along {nax} axes when the (broadcasted) `by` arrays have only {by_.ndim} dimensions."\n        )\n', '    assert nax <= by_.ndim\n', must_mention="nax <= by_.ndim"),
     V("twin: refusal reworded", ("C19",), "", "core.py", '        raise ValueError(f"Cannot reindex to a multidimensional array: {to}")', '        raise NotImplementedError(f"Reindexing to a multidimensional array ({to}) is not supported")', expect="silent"),
 ]
